@@ -23,9 +23,11 @@ KIND = {"quantifiers-remover": 0, "state-invariants-remover": 1, "bounded-types-
         "conditional-effects-remover": 3, "disjunctive-conditions-remover": 4, "grounder": 5}
 
 PROVED = ["quantifiers-remover", "state-invariants-remover", "bounded-types-remover", "conditional-effects-remover",
-          "disjunctive-conditions-remover (problems without auxiliary goal action)", "grounder"]
-VALIDATED_ONLY = ["negative-conditions-remover", "usertype-fluents-remover", "trajectory-constraints-remover",
-                  "undefined-initial-numeric-remover", "pipelines", "disjunctive-conditions-remover with a fake goal action"]
+          "disjunctive-conditions-remover (with and without auxiliary goal action)", "grounder",
+          "negative-conditions-remover", "usertype-fluents-remover (flat fragment)", "undefined-initial-numeric-remover",
+          "pipelines of certified stages (quantifiers+conditional-effects, grounder+conditional-effects)"]
+VALIDATED_ONLY = ["trajectory-constraints-remover at plan level (regression and monitor are proved)",
+                  "durative actions", "other pipelines"]
 
 
 # extra per-compiler correspondences wired into c06.py / c07.py when the module exists
